@@ -17,7 +17,8 @@ ovars == <<vars, tid>>
 InitOn ==
   /\ tid \in 1..Len(Inputs)
   /\ objs = [k \in 1..Len(Inputs[tid]) |-> [p1 |-> Inputs[tid][k].p1, p2 |-> Inputs[tid][k].p2,
-                                             ns |-> Inputs[tid][k].ns, tag |-> Inputs[tid][k].tag]]
+                                             ns |-> Inputs[tid][k].ns, tag |-> Inputs[tid][k].tag,
+                                             kind |-> Inputs[tid][k].kind]]
   /\ input = objs
   /\ stage = "tags" /\ i = 0
   /\ endDict = [p \in Pts |-> <<>>]
@@ -25,5 +26,6 @@ InitOn ==
 NextOn == (Tags \/ Connect) /\ UNCHANGED tid
 
 DumpOn == Done => PrintT(ToJson([tid |-> tid, rec |-> DumpRec]))
-RejectOn == (stage = "reject") => PrintT(ToJson([tid |-> tid, rec |-> [input |-> input, reject |-> TRUE]]))
+RejectOn == (stage \in {"reject", "assert"}) =>
+               PrintT(ToJson([tid |-> tid, rec |-> [input |-> input, reject |-> TRUE, assertion |-> (stage = "assert")]]))
 =============================================================================
